@@ -66,6 +66,13 @@ POOL = [
     ('SELECT {0} - verif_yield(a, 26) AS x, {1} AS s FROM #t0 WHERE {2} - a > 0', ['int', 'str', 'int'], ()),
     ('SELECT a, a - {0} AS x FROM #t0 WHERE a > {1}', ['int', 'int'], ()),
     ('SELECT nosuch FROM #t0', [], ('bad',)),
+    # a yield site between the operand evaluations of functions with several operands
+    ('SELECT account, root(account, verif_yield(2, 65)) AS r, maxwidth(narration, verif_yield(6, 66)) AS w', [], ('multiop',)),
+    ('SELECT account, grep("Bank|Food", verif_yield(account, 67)) AS g, subst("a", "A", verif_yield(account, 68)) AS s', [], ('multiop',)),
+    ('SELECT date_add(date, verif_yield(1, 69)) AS d, round(number, verif_yield(1, 70)) AS r, safediv(number, verif_yield(number, 71)) AS q, '
+     'account', [], ('multiop',)),
+    ('SELECT root(account, verif_yield(1, 72)) AS r, sum(round(number, verif_yield(1, 73))) AS s GROUP BY r', [], ('multiop', 'agg')),
+    ('SELECT a, substr(c, verif_yield(0, 74), verif_yield(2, 75)) AS s, date_add(d, verif_yield(a, 76)) AS dd FROM #t0', [], ('multiop',)),
     # rewritten statements with a yield site in the middle of their compilation
     ('BALANCES FROM year >= verif_cyield(2020, 46) WHERE account ~ "Assets"', [], ('compile', 'agg', 'cooked')),
     ('BALANCES WHERE account ~ "Expenses|Income"', [], ('agg', 'cooked')),
@@ -109,7 +116,7 @@ def generate(rng, tier, run):
             ledgers.append(world.gen_ledger(rng, n_txn=rng.randint(2, 6)))
     t0 = world.gen_table(rng, 't0', nrows=rng.randint(1, 7), cols=T0_COLS, nullable=0.1)
     # swarm: weight statement families per run
-    fam = {'wide': rng.choice([0.5, 1, 3]), 'cooked': rng.choice([0.5, 1, 3]), 'acct': rng.choice([0.3, 1, 3]), 'postfinal': rng.choice([0.5, 2, 4]), 'compile': rng.choice([0.5, 1, 3]), 'bal2': rng.choice([0.5, 2, 4]), 'bal1': rng.choice([0.5, 1, 3]), 'agg': rng.choice([0.5, 1, 2]),
+    fam = {'multiop': rng.choice([0.5, 1, 3]), 'wide': rng.choice([0.5, 1, 3]), 'cooked': rng.choice([0.5, 1, 3]), 'acct': rng.choice([0.3, 1, 3]), 'postfinal': rng.choice([0.5, 2, 4]), 'compile': rng.choice([0.5, 1, 3]), 'bal2': rng.choice([0.5, 2, 4]), 'bal1': rng.choice([0.5, 1, 3]), 'agg': rng.choice([0.5, 1, 2]),
            'subq': rng.choice([0.3, 1, 2]), 'from': rng.choice([0.3, 1]), 'fault': 0.6, 'bad': 0.2}
 
     def weight(tags):
